@@ -45,7 +45,7 @@ ASSUMPTIONS = [
     "exact stratum preservation is asserted for replacement sampling only (single-pass is documented not to guarantee counts); under single-pass + by_label the easy strata must be exact",
 ]
 PROBES = [
-    "extreme_class_draw", "extreme_easy_draw", "single_pass_binomial", "single_pass_poisson", "dynamic_to_single_pass",
+    "from_labels_source", "sample_of_sample", "documented_error", "extreme_class_draw", "extreme_easy_draw", "single_pass_binomial", "single_pass_poisson", "dynamic_to_single_pass",
     "dynamic_to_replacement", "empty_class_source", "smoothing", "proportion", "callable", "ties_in_source",
     "int_scores", "easy_samples", "presorted_source",
 ]
@@ -113,9 +113,14 @@ def gen_source(rnd, size_class, allow_empty):
         "size_class": size_class,
         "style": style,
     }
+    if rnd.random() < 0.12 and not spec["presorted"]:
+        spec["via"] = "from_labels"
+        spec["pos_label"] = rnd.choice([1, 1, "p", True, 2])
     if spec["dtype"] == "int64":
         spec["pos"] = [int(v) for v in spec["pos"]]
         spec["neg"] = [int(v) for v in spec["neg"]]
+        if rnd.random() < 0.25:
+            spec["dtype"] = "int32"
     elif rnd.random() < 0.06:
         # single-precision scores (values chosen exactly representable so that the scenario round-trips)
         spec["dtype"] = "float32"
@@ -173,22 +178,29 @@ def generate(rnd, tier):
     ops = []
     n_ops = rnd.randint(2, 10)
     big = size_class in ("switch", "large", "huge")
+    pool_n = n_obj
     for _ in range(n_ops):
         r = rnd.random()
-        oi = rnd.randrange(n_obj)
+        oi = rnd.randrange(pool_n)
         if r < 0.12:
             ops.append({"op": "query", "obj": oi, "what": rnd.choice(["cm", "fnr", "fpr", "threshold_at_fnr", "swap"])})
             continue
         if r < 0.18:
             ops.append({"op": "reseed", "seed": rnd.randrange(2**31)})
             continue
+        if r < 0.21 and not objects[oi % n_obj]["replacement_only"]:
+            ops.append({"op": "expect_error", "obj": oi, "case": rnd.choice(["single_pass_smoothing", "proportion_no_ratio", "unknown_method", "non_callable"])})
+            continue
         method = rnd.choice(METHODS[:3]) if rnd.random() < 0.8 else rnd.choice(METHODS[3:])
-        if objects[oi]["replacement_only"] and method != "callable":
-            method = "replacement"
+        if (oi >= n_obj or objects[oi]["replacement_only"]) and method not in ("callable",):
+            method = "replacement" if (oi < n_obj or rnd.random() < 0.5) else method
         cfg = gen_cfg(rnd, method)
-        if objects[oi]["replacement_only"]:
+        if oi >= n_obj or objects[oi]["replacement_only"]:
             cfg["smoothing"] = False
         op = {"op": "sample", "obj": oi, "cfg": cfg, "repeat": rnd.randint(1, 2 if size_class == "huge" else 6 if big else 30), "faults": []}
+        if method != "callable" and rnd.random() < 0.15:
+            op["adopt"] = True  # the last sample of this op becomes a source itself (a sample of a sample)
+            pool_n += 1
         if not fault_free:
             for _ in range(rnd.choice([0, 1, 1, 2, 3])):
                 f = gen_fault(rnd)
@@ -341,6 +353,7 @@ def execute(scn, ctx):
         objs.append(o)
         callers.append(c)
         caller_fp.append(c.fp0)
+    specs = list(scn["objects"])
     viol, trace = [], []
     probes, faults = {}, {}
     sig = []
@@ -359,6 +372,8 @@ def execute(scn, ctx):
             probe("ties_in_source")
         if o.pos.dtype.kind == "i":
             probe("int_scores")
+        if spec.get("via") == "from_labels":
+            probe("from_labels_source")
         if o.nb_easy_pos or o.nb_easy_neg:
             probe("easy_samples")
         if spec.get("presorted"):
@@ -371,8 +386,33 @@ def execute(scn, ctx):
             trace.append([step, "reseed"])
             sig.append("reseed")
             continue
-        src = objs[op["obj"]]
+        oi = op["obj"] % len(objs)
+        src = objs[oi]
         src_fp = M.fingerprint(src)
+        if kind == "expect_error":
+            # documented ValueErrors of bootstrap_sample (docstrings / messages in the source)
+            L_ = lib()
+            case = op["case"]
+            bad_cfg = {"single_pass_smoothing": dict(sampling_method="single_pass", smoothing=True),
+                       "proportion_no_ratio": dict(sampling_method="proportion"),
+                       "unknown_method": dict(sampling_method="jackknife"),
+                       "non_callable": dict(sampling_method=3.5)}[case]
+            probe("documented_error")
+            if len(src.pos) and len(src.neg):
+                try:
+                    src.bootstrap_sample(L_.BootstrapConfig(**bad_cfg))
+                    viol.append({"invariant": "C11.documented_error", "tags": {"case": case},
+                                 "detail": f"bootstrap_sample({bad_cfg}) returned a sample; a ValueError is documented (op {step})"})
+                except ValueError:
+                    pass
+                except Exception as e:  # noqa: BLE001
+                    viol.append({"invariant": "C11.documented_error", "tags": {"case": case},
+                                 "detail": f"bootstrap_sample({bad_cfg}) raised {type(e).__name__}: {e}; a ValueError is documented (op {step})"})
+                if M.fingerprint(src) != src_fp:
+                    viol.append({"invariant": "C11.source_unchanged", "detail": "a rejected configuration changed the source", "tags": {"case": case}})
+            trace.append([step, "expect_error", case])
+            sig.append("err|" + case)
+            continue
         if kind == "query":
             try:
                 what = op["what"]
@@ -395,9 +435,17 @@ def execute(scn, ctx):
         # ---- sample op
         cfg = op["cfg"]
         eff = effective_method(cfg, src)
+        if (len(src.pos) == 0 or len(src.neg) == 0) and (eff not in ("replacement", "callable") or cfg.get("smoothing")):
+            trace.append([step, "skipped-outside-quantifier"])
+            if op.get("adopt"):
+                objs.append(src)
+                callers.append(M._callers({}))
+                caller_fp.append(M.fingerprint([]))
+                specs.append(specs[oi])
+            continue  # empty classes are in the quantifier for plain replacement sampling only
         sampler = box = None
         if eff == "callable":
-            sampler, box = make_sampler(cfg["sampling_method"]["callable"], scn["objects"][op["obj"]])
+            sampler, box = make_sampler(cfg["sampling_method"]["callable"], {k_: v_ for k_, v_ in specs[oi].items() if k_ not in ("via", "presorted", "swaps")})
             probe("callable")
         config = M.build_config(cfg, sampler)
         tags = {"method": cfg["sampling_method"] if not isinstance(cfg["sampling_method"], dict) else "callable",
@@ -408,7 +456,7 @@ def execute(scn, ctx):
             probe("smoothing")
         if eff == "proportion":
             probe("proportion")
-        states.add(f"{size_class_of(src)}|{scn['objects'][op['obj']].get('style')}|e{int(bool(src.nb_easy_pos))}{int(bool(src.nb_easy_neg))}|"
+        states.add(f"{size_class_of(src)}|{specs[oi].get('style')}|e{int(bool(src.nb_easy_pos))}{int(bool(src.nb_easy_neg))}|"
                    f"{src.score_class.value}{src.equal_class.value}|{tags['method']}|{tags['strat']}|{tags['smoothing']}")
         h = hashlib.sha1()
         fired_kinds = set()
@@ -469,8 +517,23 @@ def execute(scn, ctx):
                     held.append((step, s, M.fingerprint(s)))
                     if len(held) > 3:
                         held.pop(0)
-        cfp = M.fingerprint(list(callers[op["obj"]].values()))
-        if cfp != caller_fp[op["obj"]]:
+        if op.get("adopt"):
+            last = next((hs[1] for hs in reversed(held) if hs[0] == step), None)
+            if last is not None and len(last.pos) and len(last.neg):
+                probe("sample_of_sample")
+                objs.append(last)
+                callers.append(M._callers({}))
+                caller_fp.append(M.fingerprint([]))
+                specs.append({"pos": np.asarray(last.pos, dtype=float).tolist(), "neg": np.asarray(last.neg, dtype=float).tolist(),
+                              "dtype": "float64", "nb_easy_pos": int(last.nb_easy_pos), "nb_easy_neg": int(last.nb_easy_neg),
+                              "score_class": last.score_class.value, "equal_class": last.equal_class.value, "style": "adopted"})
+            else:
+                objs.append(src)
+                callers.append(M._callers({}))
+                caller_fp.append(M.fingerprint([]))
+                specs.append(specs[oi])
+        cfp = M.fingerprint(list(callers[oi].values()))
+        if cfp != caller_fp[oi]:
             viol.append({"invariant": "C11.source_unchanged", "detail": "caller-supplied score arrays were modified", "tags": tags})
         trace.append([step, "sample", tags, op.get("repeat", 1), h.hexdigest()[:16], sorted(fired_kinds), outcome])
         sig.append(f"s|{tags['method']}|{tags['strat']}|{tags['smoothing']}|{eff}|{size_class_of(src)}|{','.join(sorted(fired_kinds))}|{outcome}")
